@@ -127,7 +127,9 @@ func C11XPathVsDOM() {
 // C11XPathNs: the same comparison on a document with namespace prefixes: prefixed elements
 // carrying unprefixed and prefixed attributes.
 func C11XPathNs() {
-	exprs := []string{"/R/p:T/@a", "//@a", "//p:T[@a='1']", "//*[name(@a)='a']", "/R/T/@a", "//@p:b", "//p:T/@*", "//*[@p:b]"}
+	exprs := []string{"/R/p:T/@a", "//@a", "//p:T[@a='1']", "//*[name(@a)='a']", "/R/T/@a", "//@p:b", "//p:T/@*", "//*[@p:b]",
+		// the attribute axis of an element that carries a namespace declaration: the DOM keeps it there
+		"/R/@*", "//@*", "//*[count(@*)=1]", "/R/@*[1]"}
 	expr := exprs[zz.NondetChoice("expr", len(exprs))]
 	root := &zzX{name: "R", attrs: [][2]interface{}{{"xmlns:p", []byte("u:p")}}}
 	n := 1 + zz.NondetChoice("nkids", 2)
